@@ -6,7 +6,21 @@ import json, os, subprocess, sys
 HERE = os.path.dirname(os.path.dirname(os.path.abspath(__file__)))
 
 # property id -> (level text, level note, design ref)
+TECH = ("contract-based deductive verification: weakest-precondition style VCs generated from go/ssa of the real functions "
+        "against //@ contracts, discharged by z3/cvc5")
+
 CLAIMS = {
+    "C03": (
+        "The binary decoding path is under contract function by function: parseTag; bitstream.Next against the Ion binary type-descriptor table "
+        "(all 256 descriptor octets, inline and VarUInt lengths, sorted structs, typed nulls, booleans, NOP pads, version markers only at top level); "
+        "readVarUintLen/skipVarUintLen/readVarIntLen against closed-form VarUInt/VarInt specification functions; ReadInt, ReadSymbolID, ReadFloat, "
+        "ReadString, ReadBytes, ReadBVM, ReadFieldID against big-endian/IEEE specification functions; SkipValue/StepIn/StepOut and the "
+        "representation invariant of the container stack; binaryReader.next's descriptor-to-Ion-type table, NOP-pad skipping and version-marker "
+        "handling. Every clause is proved for all inputs (bit-precise 64-bit arithmetic, ghost model of the buffered input stream).",
+        "Per-function proofs; the composition into whole-stream decoding is by the chain of contracts, not machine-checked as one theorem. "
+        "Trusted (assumed, listed in evidence): ReadDecimal, ReadTimestamp, ReadAnnotations and readLocalSymbolTable are thin assumed contracts "
+        "for their callers; math/big as integers; bufio/io through the ghost stream model.",
+        "DESIGN.md section 7 C03"),
     "C04": (
         "Every pre-computed length function of the binary writer (uintLen, intLen, varUintLen, varIntLen, tagLen) is proved equal, for all "
         "64-bit inputs, to a closed-form specification function taken from the Ion binary spec, and every append function is proved to "
@@ -17,8 +31,54 @@ CLAIMS = {
         "machine and buffer tree, text output, symbol-table emission; no independent decoder exists in this family - 'equals the "
         "specification function' stands in for it. Trusted: go/ssa, solvers, 64-bit int, append modelled as always-fresh array.",
         "DESIGN.md section 7 C04"),
+    "C06": (
+        "No-panic (nil dereference, index and slice bounds, failed type assertion, explicit panic, makeslice) obligations for every function of "
+        "the binary reading path under contract, under the representation invariants bsLocal/bsNested/brLocal that each operation is proved to "
+        "re-establish; every allocation sized by input data is bounded (allocbound obligation on readN: at most 64 KiB is allocated ahead of "
+        "the bytes delivered); reader accessors never dereference a nil value.",
+        "Binary reader and accessors only: the text reader, Decoder/Unmarshal and the symbol-table reader are not under contract yet, so this "
+        "check decides the property for binary input up to the same trusted thin contracts as C03. Termination is not proved.",
+        "DESIGN.md section 7 C06"),
+    "C07": (
+        "Error postconditions taken from the Ion binary spec for the binary path: illegal descriptor octets, a version marker inside a container, "
+        "an empty sorted struct, a length that overruns its container or the addressable offsets, input that ends inside a value, a container "
+        "or a VarUInt, VarUInts longer than allowed, negative zero integers, float sizes other than 0/4/8, symbol ids longer than 8 bytes, bad "
+        "version markers all end in a non-nil error; binaryReader.Next is proved sticky (after an error it returns false and changes nothing).",
+        "Binary input only; the text reader's error paths are not under contract. The catalogue of malformations is the one the contracts state.",
+        "DESIGN.md section 7 C07"),
+    "C08": (
+        "Skip equals read on the cursor: SkipValue and every ReadX are proved to leave the bitstream at old position + length, in the state "
+        "after a value, with the value fields cleared (one shared postcondition bsConsumed); StepOut lands on the container's end from any "
+        "inner position; StepIn/StepOut preserve the stack below; refused calls (StepIn on a scalar or null, StepOut at top level, calls after "
+        "an error) change nothing; accessors have `modifies nothing`.",
+        "Binary reader only. Navigation programs as a whole follow from the per-call contracts on paper.",
+        "DESIGN.md section 7 C08"),
+    "C13": (
+        "Integer codecs: the bits.go encoders against closed-form byte specifications for all 64-bit values; readVarUintLen/readVarIntLen/ReadInt/"
+        "ReadSymbolID decode exactly (int64 fast path iff the magnitude fits, otherwise big.Int); ReadFloat decodes 4- and 8-byte IEEE values "
+        "exactly; IntSize/IntValue/Int64Value/BigIntValue and every other accessor return nil for a typed null of their type, a usage error for "
+        "another type, the exact value when it fits and an error when it does not.",
+        "Writer-side WriteFloat/WriteBigInt and the text parser parseInt are not under contract yet. math/big is a trusted integer model.",
+        "DESIGN.md section 7 C13"),
+    "C18": (
+        "Frame conditions on shared state, for every function of package ion: it assigns no package-level variable and hands no such variable's "
+        "address to a writer; it writes to no object reached from a package-level variable or from a shared symbol table / catalog it received "
+        "(receiver or parameter), unless it allocated the object itself. The obligations are generated from go/ssa for the whole package and "
+        "discharged by a conservative flow analysis with interprocedural write summaries (no solver).",
+        "Decides the sequential sufficient condition 'shared state is never written after construction'; schedules are not enumerated and "
+        "races inside reflect, time and math/big for read-only use are assumed absent. Library functions are assumed not to write through "
+        "their arguments except for a listed set of mutators.",
+        "DESIGN.md section 7 C18"),
+    "C19": (
+        "The binary reader touches its input only through the ghost-stream model of bufio.Reader (ReadByte/Peek/Discard) and io.ReadFull/io.CopyN, "
+        "which has no notion of chunks; read, read1, skip, readN, peekAtOffset and every function built on them are proved to return a non-nil "
+        "error when the underlying reader fails with anything but a clean end, and to treat a short read as an error.",
+        "Reader side, binary only. Chunking itself lives inside bufio (trusted model). Writer failures are not under contract yet.",
+        "DESIGN.md section 7 C19"),
 }
 
+NA_DEFAULT = ("contracts for the functions this property depends on are not yet under the generator (see DESIGN.md section 11, build order); "
+              "not claimed until its core obligations are generated and discharged")
 NOT_APPLICABLE = {}
 
 ALL = ["C%02d" % i for i in range(1, 21)]
@@ -42,15 +102,14 @@ def main():
             "engine": "ionvc",
             "level_claimed": {"category": "proof", "text": text, "design_ref": ref},
             "level_note": note,
-            "technique": "contract-based deductive verification: weakest-precondition style VCs generated from go/ssa of the real functions "
-                         "against //@ contracts, discharged by z3/cvc5",
+            "technique": TECH if pid != "C18" else "frame-condition obligations (modifies nothing shared) generated from go/ssa for every "
+                         "function of the package, discharged by a conservative interprocedural flow analysis (no solver)",
         })
     na = []
     for pid in ALL:
         if pid in CLAIMS:
             continue
-        na.append({"property_id": pid, "reason": NOT_APPLICABLE.get(pid, "contracts for the functions this property depends on are not yet "
-                   "under the generator (see DESIGN.md section 11, build order); not claimed until its core obligations are generated and discharged")})
+        na.append({"property_id": pid, "reason": NOT_APPLICABLE.get(pid, NA_DEFAULT)})
     man = {
         "version": 1,
         "setup_cmd": "./setup.sh",
